@@ -197,7 +197,43 @@ def tiny(wd, rng, page_size=1024, tag="tiny"):
     return db
 
 
-def corpus(run, name, which=("deep", "wr", "ipk", "ovf", "mix", "tiny", "misc", "thr"), deep_rows=None):
+DFLT_TYPES = ["", "TEXT", "VARCHAR(10)", "CLOB", "INTEGER", "INT", "BIGINT", "REAL", "DOUBLE", "FLOAT", "NUMERIC", "DECIMAL(10,2)", "BLOB",
+              "DATETIME", "BOOLEAN", "CHARINT", "STRING", "XBLOBY", "REALTEXT"]
+DFLT_VALUES = ["5", "-3", "0", "9223372036854775807", "'7'", "'7.0'", "'7.5'", "'abc'", "' 12 '", "'1e3'", "'-0'", "'0x10'", "'9223372036854775808'",
+               "''", "'1.'", "'.5'", "'1e'", "'+4'", "NULL", "'12abc'", "'1e400'", "true", "false", "'true'", "abc", "TRUE"]
+
+
+def defaults_db(wd, rng, page_size=1024, tag="dflt"):
+    """columns added by ALTER TABLE with a DEFAULT: rows written before the column existed take the
+    default with the column's affinity applied (every declared-type class x every literal form)"""
+    path = os.path.join(wd, "%s-%d.db" % (tag, page_size))
+    c = _mk(path, page_size)
+    db = DB(path, page_size, tag)
+    pairs = [(t, v) for t in DFLT_TYPES for v in DFLT_VALUES]
+    rng.shuffle(pairs)
+    ntab = 6
+    for ti in range(ntab):
+        name = "d%d" % ti
+        wr = ti % 3 == 2
+        c.execute("CREATE TABLE %s(id INTEGER PRIMARY KEY, x)%s" % (name, " WITHOUT ROWID" if wr else ""))
+        for i in range(8):
+            c.execute("INSERT INTO %s VALUES(?,?)" % name, (i * 3 + 1, "old%d" % i))
+        cols = ["id", "x"]
+        for n, (t, v) in enumerate(pairs[ti::ntab]):
+            col = "c%d" % n
+            c.execute("ALTER TABLE %s ADD COLUMN %s %s DEFAULT %s" % (name, col, t, v))
+            cols.append(col)
+            if n % 7 == 3:
+                # a row written in between: later columns are missing from it, earlier ones are stored
+                c.execute("INSERT INTO %s(id, x) VALUES(?,?)" % name, (1000 + n, "mid%d" % n))
+        c.execute("INSERT INTO %s(id, x) VALUES(5000, 'new')" % name)
+        db.tables[name] = dict(kind="norowid" if wr else "ipk", cols=cols, pk=[("id", "", False)])
+    c.close()
+    db.refresh()
+    return db
+
+
+def corpus(run, name, which=("deep", "wr", "ipk", "ovf", "mix", "tiny", "misc", "thr", "dflt"), deep_rows=None):
     rng = random.Random(run.seed * 7919 + 13)
     wd = os.path.join(core.WORK, name)
     os.makedirs(wd, exist_ok=True)
@@ -226,6 +262,8 @@ def corpus(run, name, which=("deep", "wr", "ipk", "ovf", "mix", "tiny", "misc", 
         if not quick:
             for u in (1024, 4096, 65536):
                 dbs.append(thresholds_db(wd, rng, u, tag="thr"))
+    if "dflt" in which:
+        dbs.append(defaults_db(wd, rng))
     if "misc" in which:
         dbs.append(misc(wd, rng, 512, 300 if quick else 2500))
         if not quick:
